@@ -186,6 +186,21 @@ def harness_violation(case, r):
         return "panic: " + r["panic"]
     if (r.get("e2erace") or {}).get("failures"):
         return "concurrent release/open: " + r["e2erace"]["failures"][0]
+    kind = case.get("kind", "ctl")
+    if kind in ("e2ev", "e2e", "conc") and (r.get("e2e") or r.get("hist")):
+        # replayed / corpus cases of the extra phases: evaluate their own monitor
+        try:
+            if kind == "e2ev":
+                q = "e2ev_violations [%s : e2ev_case_t]" % e2ev_to_coq(case, r)
+            elif kind == "e2e":
+                q = "e2e_violations [%s : e2e_case_t]" % e2e_to_coq(case, r)
+            else:
+                q = "conc_rejects [%s : conc_case_t]" % conc_to_coq(case, r)
+            out = coq_print(PID, COQ_IMPORTS, "Eval vm_compute in %s." % q)
+            if "= []" not in out.replace("\n", " "):
+                return "%s case rejected by its monitor: %s" % (kind, out.strip()[-200:])
+        except Exception as ex:  # noqa
+            return "cannot evaluate %s case: %r" % (kind, ex)
     return None
 
 
@@ -325,6 +340,65 @@ def gen_e2e(rng):
     return {"kind": "e2e", "e2e": {"shared": rng.random() < 0.35, "ops": ops}}
 
 
+def gen_e2ev(rng):
+    """writers holding 1-3 virtual channels with per-channel authorities; later writers take over only some of
+    them; frames list the held channels in varying orders."""
+    ops, live, nw = [], {}, 0       # live: w -> list of channels
+    base = rng.choice([1, 100, 127, 200])
+
+    def opn(chs, auths, eou=False):
+        nonlocal nw
+        ops.append({"op": "open", "w": nw, "subj": nw + 1, "chans": [[k, a] for k, a in zip(chs, auths)], "eou": eou})
+        if not eou:
+            live[nw] = list(chs)
+        nw += 1
+    first = rng.sample([1, 2, 3], rng.choice([2, 3, 3]))
+    opn(first, [base if rng.random() < 0.8 else rng.choice([0, 1, 255]) for _ in first])
+    for _ in range(rng.randrange(4, 13)):
+        x = rng.random()
+        if x < 0.22 and nw < 4:
+            chs = rng.sample([1, 2, 3], rng.choice([1, 1, 2, 3]))
+            opn(chs, [rng.choice([base + 1 if base < 255 else base, base, max(0, base - 1), 255, 0]) for _ in chs],
+                eou=rng.random() < 0.1)
+        elif x < 0.72 and live:
+            w = rng.choice(list(live))
+            keys = rng.sample(live[w], rng.randrange(1, len(live[w]) + 1))
+            ops.append({"op": "write", "w": w if rng.random() < 0.97 else 7, "keys": keys})
+        elif x < 0.88 and live:
+            w = rng.choice(list(live))
+            chs = rng.sample(live[w], rng.randrange(1, len(live[w]) + 1))
+            ops.append({"op": "set", "w": w, "chans": [[k, rng.choice([base, base + 1 if base < 255 else base, 0, 255,
+                                                                         max(0, base - 1)])] for k in chs]})
+        elif live:
+            w = rng.choice(list(live))
+            ops.append({"op": "close", "w": w})
+            del live[w]
+    for w in list(live):
+        if rng.random() < 0.5:
+            ops.append({"op": "write", "w": w, "keys": rng.sample(live[w], len(live[w]))})
+    return {"kind": "e2ev", "e2ev": {"ops": ops}}
+
+
+def c_chans(ch):
+    return clist([cpair(cN(k), cN(a)) for k, a in ch])
+
+
+def e2ev_to_coq(case, r):
+    steps = []
+    for o, x in zip(case["e2ev"]["ops"], r["e2e"]["steps"]):
+        if o["op"] == "open":
+            co = "VOpen %s %s %s %s" % (cN(o["w"]), cN(o["subj"]), c_chans(o["chans"]), cbool(o.get("eou")))
+        elif o["op"] == "write":
+            co = "VWrite %s %s" % (cN(o["w"]), clist([cN(k) for k in o["keys"]]))
+        elif o["op"] == "set":
+            co = "VSet %s %s" % (cN(o["w"]), c_chans(o["chans"]))
+        else:
+            co = "VClose %s" % cN(o["w"])
+        steps.append(cpair(co, cpair(cN(EST.get(x["st"], 8)), cN(x["auth"]))))
+    return clist(steps)
+
+
+E2EV_COUNTS = {"quick": 150, "thorough": 4000}
 EST = {"ok": 0, "unauth": 1, "valid": 2, "skip": 5, "config": 7, "other": 8, "err": 9}
 
 
@@ -341,6 +415,35 @@ def e2e_to_coq(case, r):
             co = "EClose %s" % cN(o["w"])
         steps.append(cpair(co, cpair(cN(EST.get(x["st"], 8)), cN(x["auth"]), clist([cZ(t) for t in x["ts"]]))))
     return cpair(cbool(case["e2e"]["shared"]), clist(steps), clist([cZ(t) for t in r["e2e"]["read"]]))
+
+
+def _shrink_e2ev(ctx, case):
+    cur = case
+    for _ in range(6):
+        ops = cur["e2ev"]["ops"]
+        cands = []
+        for i in range(len(ops)):
+            c = json.loads(json.dumps(cur))
+            del c["e2ev"]["ops"][i]
+            cands.append(c)
+        if not cands:
+            break
+        for i, c in enumerate(cands):
+            c["id"] = i
+        res = vlib.run_harness(ctx.bin, cands, procs=8)
+        terms, idx = [], []
+        for i, c in enumerate(cands):
+            r = res.get(i)
+            if r and not r.get("panic") and r.get("e2e"):
+                terms.append(e2ev_to_coq(c, r))
+                idx.append(i)
+        _, V, _ = vlib.coq_eval_cases(PID + "v", COQ_IMPORTS, "e2ev_case_t", terms, shard=60,
+                                      mism="e2ev_mismatches", viol="e2ev_violations")
+        if not V:
+            break
+        cur = cands[idx[V[0]]]
+        cur.pop("id", None)
+    return cur
 
 
 def extra(ctx):
@@ -381,6 +484,48 @@ def extra(ctx):
     ctx.extra_cov["e2e_monitor_rejections"] = len(V)
     ctx.extra_cov["e2e_writes_authorized"] = sum(1 for x in wr if x["auth"] == 1)
     ctx.extra_cov["e2e_writes_unauthorized"] = sum(1 for x in wr if x["auth"] == 0)
+    # ---- (a2) end-to-end on virtual channels: partial take-over, frame order
+    rng = random.Random(ctx.seed * 353 + 11)
+    vcases = [gen_e2ev(rng) for _ in range(E2EV_COUNTS[ctx.tier])]
+    for i, c in enumerate(vcases):
+        c["id"] = i
+    res = vlib.run_harness(ctx.bin, vcases, timeout=900, procs=8)
+    terms, idx, crashed = [], [], 0
+    for i, c in enumerate(vcases):
+        r = res.get(i)
+        if r is None or r.get("panic") or (r.get("e2e") or {}).get("err"):
+            crashed += 1
+            if crashed <= 2:
+                chk.report_case_violation(ctx, c, r, "virtual-channel writer case failed in the harness: %s" %
+                                          ((r or {}).get("panic") or ((r or {}).get("e2e") or {}).get("err") or "no result"))
+            continue
+        terms.append(e2ev_to_coq(c, r))
+        idx.append(i)
+    M, V, errs = vlib.coq_eval_cases(PID + "v", COQ_IMPORTS, "e2ev_case_t", terms, shard=60,
+                                     mism="e2ev_mismatches", viol="e2ev_violations")
+    for e in errs[:1]:
+        rp = chk.write_replay(ctx, "V2", "e2ev correspondence could not be evaluated", {}, None, {"errors": errs[:5]})
+        ctx.violations.append({"kind": "V2", "what": "e2ev evaluation errors: " + e[:300], "replay": rp, "found_input": False})
+    if V:
+        # smallest failing script, then drop ops one by one while the monitor still rejects
+        small = min((vcases[idx[v]] for v in V), key=lambda c: len(c["e2ev"]["ops"]))
+        small = _shrink_e2ev(ctx, small)
+        rr = vlib.run_harness(ctx.bin, [dict(small, id=0)], procs=1)
+        chk.report_case_violation(ctx, small, rr.get(0),
+                                  "cesium writers on virtual channels: the authorized flag of a write contradicts the "
+                                  "control state of the channels in the frame")
+    if M and not V:
+        i = idx[M[0]]
+        rp = chk.write_replay(ctx, "V2", "model and implementation disagree (e2ev)", vcases[i], res.get(i),
+                              {"correspondence": "corr:C05/e2ev#%d" % i, "mismatching_cases": len(M)})
+        ctx.violations.append({"kind": "V2", "what": "correspondence corr:C05/e2ev broke on %d cases" % len(M),
+                               "replay": rp, "found_input": False})
+    vw = [x for i in idx for x in res[i]["e2e"]["steps"] if x["auth"] != 2]
+    ctx.extra_cov["e2ev_cases"] = len(vcases)
+    ctx.extra_cov["e2ev_mismatches"] = len(M)
+    ctx.extra_cov["e2ev_monitor_rejections"] = len(V)
+    ctx.extra_cov["e2ev_writes_authorized"] = sum(1 for x in vw if x["auth"] == 1)
+    ctx.extra_cov["e2ev_writes_unauthorized"] = sum(1 for x in vw if x["auth"] == 0)
     # ---- (b) concurrent calls under the race detector (validation, not proof)
     binp, blog = vlib.go_build(MODULE, PKG, BIN, race=True)
     if binp is None:
